@@ -647,6 +647,11 @@ func C04(c *Ctx) {
 		var why []string
 		for _, src := range sourcesWithFacts(bsArg, stepFns) {
 			succ := false
+			if fs := flow.Expand(src.facts); factsContradict(fs, fs) {
+				// a way that cannot be taken: it needs the same test to come out both ways (`if err != nil {...}`
+				// followed by `switch { case err == nil: ...`): the value that flows along it never arrives
+				continue
+			}
 			for _, f := range flow.Expand(src.facts) {
 				if b, isB := f.Cond.(*ssa.BinOp); isB && sameValue(b.X, aerr, actionCall.Parent()) && ssau.IsNilConst(b.Y) {
 					if (b.Op == token.EQL && f.True) || (b.Op == token.NEQ && !f.True) {
